@@ -2,6 +2,8 @@
 mod cases;
 mod oracle;
 mod real;
+mod small;
+mod witness;
 mod types;
 
 use cases::*;
@@ -48,6 +50,10 @@ fn main() {
     let rt = tokio::runtime::Builder::new_multi_thread().worker_threads(2).enable_all().build().unwrap();
     match a.stream.as_str() {
         "flow" => rt.block_on(stream_flow(&a, &root)),
+        "witness" => rt.block_on(stream_witness(&a, &root)),
+        "state" => small::stream_state(&a),
+        "bucket" => small::stream_bucket(&a),
+        "pi64" => small::stream_pi64(&a),
         other => {
             eprintln!("unknown stream {other}");
             std::process::exit(2);
@@ -93,6 +99,38 @@ async fn stream_flow(a: &snel_harness::out::Args, root: &std::path::Path) {
             tables.push((table, split));
         }
         oracle::check(&mut s, i, &case, &parts, &tables);
+    }
+    s.finish();
+}
+
+/// Fixed minimal witnesses of every finding class: exact correspondence, and the oracle must
+/// name exactly the class.
+async fn stream_witness(a: &snel_harness::out::Args, root: &std::path::Path) {
+    let env = real::Env::new(root);
+    let mut s = Stream::create(&a.out, "witness");
+    for (i, w) in witness::all().iter().enumerate() {
+        let res = real::run_real(&env, &w.plan, &w.flows).await;
+        let split = split_possible(&w.plan, &w.flows);
+        let line = match &res {
+            Ok(t) => table_line(t),
+            Err(_) => "err".to_string(),
+        };
+        if split {
+            s.case(&format!("flowin {}{} RESULT {}", w.plan.header(), body_tokens(&w.flows), line), "in", true);
+        } else {
+            s.case(&format!("flow {}{}", w.plan.header(), body_tokens(&w.flows)), &line, true);
+        }
+        let case = witness::as_case(w);
+        let got = match &res {
+            Ok(t) => oracle::classify(&case, &w.flows, t),
+            Err(_) => Some("impl-error".to_string()),
+        };
+        s.tally(&format!("witness:{}", if w.class.is_empty() { "(holds)" } else { w.class }));
+        match (w.class, got) {
+            ("", None) => s.oracle_ok(),
+            (c, Some(g)) if c == g => s.oracle_fail(i as u64, w.class, &format!("witness of {}: {} -> {}", w.class, body_tokens(&w.flows), line)),
+            (c, g) => s.oracle_fail(i as u64, "-", &format!("witness expected class {c:?} but the oracle says {g:?}: {line}")),
+        }
     }
     s.finish();
 }
